@@ -843,7 +843,9 @@ where
 	K: Keychain + 'a,
 {
 	let height = block_fees.height;
-	let lock_height = height + global::coinbase_maturity();
+	let lock_height = height
+		.checked_add(global::coinbase_maturity())
+		.ok_or_else(|| Error::GenericError(format!("Invalid block height: {}", height)))?;
 	let key_id = block_fees.key_id();
 	let parent_key_id = wallet.parent_key_id();
 
